@@ -8,6 +8,8 @@ the kept states is mirrored step by step by the pruned DFA.
 import AutomataVerif.Proofs.Complete
 
 namespace AV
+namespace C04
+open DFA
 
 set_option linter.unusedSectionVars false
 
@@ -57,7 +59,6 @@ theorem akeys_filter_sublist (p : κ × β → Bool) (l : List (κ × β)) :
     (akeys (l.filter p)).Sublist (akeys l) :=
   List.Sublist.map _ List.filter_sublist
 
-namespace DFA
 
 /-! ### the digraph: reachability and co-reachability -/
 
@@ -169,7 +170,7 @@ theorem not_final_of_not_coaccessible {d : DFA σ α} (wf : d.WF) {t : σ} (ht :
 /-! ### the kept states of `to_partial` -/
 
 /-- `new_states = (live_states & non_trap_states) | {initial_state}`. -/
-def partialStates (d : DFA σ α) : List σ :=
+def _root_.AV.DFA.partialStates (d : DFA σ α) : List σ :=
   sinsert d.init (d.accessible.filter fun q => decide (q ∈ d.coaccessible))
 
 theorem toPartialPlain_states (d : DFA σ α) : d.toPartialPlain.states = d.partialStates := rfl
@@ -297,5 +298,5 @@ theorem toPartialPlain_pyShape (wf : d.WF) (p : d.PyShape) : d.toPartialPlain.Py
 
 end toPartial
 
-end DFA
+end C04
 end AV
